@@ -153,6 +153,7 @@ def cases(tier, seed):
                     out.append(dict(kind="hmc", pot=pot, mass=mass, eps=eps, L=L))
     for mass in ("unit", "diag"):
         out.append(dict(kind="momentum", mass=mass))
+        out.append(dict(kind="momentum", mass=mass, tree=True))
         for cls in ("HMCChain", "NUTSChain"):
             out.append(dict(kind="sampler-momentum", mass=mass, cls=cls))
     # NUTS: one case per (orbit, start index); the orbit identity is checked in finish()
@@ -223,8 +224,18 @@ def run(case):
         d = 2
         msq = jnp.array([1.0, 1.0]) if case["mass"] == "unit" else jnp.array([0.5, 2.0]) ** (-0.5)
 
-        def fn():
-            return hmc.sample_momentum_from_diagonal(key=jax.random.PRNGKey(0), mass_matrix_sqrt=msq)
+        if case.get("tree"):
+            # position = pytree with two leaves of equal shape: the leaves' momenta must be independent
+            d = 4
+            msq_t = {"a": msq, "b": msq[::-1] * 1.5}
+            msq = jnp.concatenate([msq_t["a"], msq_t["b"]])
+
+            def fn():
+                r = hmc.sample_momentum_from_diagonal(key=jax.random.PRNGKey(0), mass_matrix_sqrt=msq_t)
+                return jnp.concatenate([r["a"], r["b"]])
+        else:
+            def fn():
+                return hmc.sample_momentum_from_diagonal(key=jax.random.PRNGKey(0), mass_matrix_sqrt=msq)
         off, L, n, resid = rngseam.linear_map(fn, lambda x: np.asarray(x), ctx=rngseam.scripted_re)
         M = np.diag(np.asarray(msq) ** 2)
         if n != d or np.abs(off).max() > 0 or resid > 1e-12 or np.abs(L @ L.T - M).max() > 1e-12:
